@@ -70,6 +70,38 @@ theorem eval_shape (env : Env) (cfa : Option UInt64) (ts : List Tok) (v : UInt64
 example : evalToks ⟨fun _ => none, fun _ => none⟩ none (postfixOf (.bin .sub (.lit 10) (.lit 3))) = some 7 := by
   rw [eval_postfix]; decide
 
+/-! ### from text to tokens: the lexical layer (`classify`), A.4 of the design notes -/
+
+/-- the operator and keyword spellings -/
+theorem classify_fixed :
+    classify tPlus = .bin .add ∧ classify tMinus = .bin .sub ∧ classify tStar = .bin .mul ∧
+    classify tSlash = .bin .div ∧ classify tPercent = .bin .rem ∧ classify tAt = .bin .align ∧
+    classify tCaret = .deref ∧ classify tCfa = .cfa ∧ classify tUndef = .undef := by decide
+
+/-- `$name` reads the register `name`, whatever `name` is (unknown names fail at evaluation) -/
+theorem classify_dollar (n : Name) : classify (0x24 :: n) = .reg n := by
+  simp [classify, tPlus, tMinus, tStar, tSlash, tPercent, tAt, tCaret, tCfa, tUndef, afterDollar]
+
+/-- with `Tree` leaves spelled `$name`, the byte-level evaluator computes the denotation -/
+theorem evalCfi_dollar_reg (env : Env) (cfa : Option UInt64) (n : Name) :
+    evalCfi env cfa [0x24 :: n] = env.reg n := by
+  simp only [evalCfi, List.map_cons, List.map_nil, classify_dollar]
+  exact eval_postfix env cfa (.reg n)
+
+/-- literals: decimal, optional sign, two's complement, `i64` range — out of range is not a
+    literal (and then names a register nobody has) -/
+example : classify [0x2D, 0x38] = .lit 0xFFFFFFFFFFFFFFF8 := by decide                    -- "-8"
+example : classify [0x2B, 0x35] = .lit 5 := by decide                                     -- "+5"
+example : classify [0x30, 0x30, 0x37] = .lit 7 := by decide                               -- "007"
+example : parseI64 [0x39,0x32,0x32,0x33,0x33,0x37,0x32,0x30,0x33,0x36,0x38,0x35,0x34,0x37,0x37,0x35,0x38,0x30,0x37]
+    = some 0x7FFFFFFFFFFFFFFF := by decide                                                -- i64::MAX
+example : parseI64 [0x39,0x32,0x32,0x33,0x33,0x37,0x32,0x30,0x33,0x36,0x38,0x35,0x34,0x37,0x37,0x35,0x38,0x30,0x38]
+    = none := by decide                                                                   -- i64::MAX + 1
+example : parseI64 [0x2D,0x39,0x32,0x32,0x33,0x33,0x37,0x32,0x30,0x33,0x36,0x38,0x35,0x34,0x37,0x37,0x35,0x38,0x30,0x38]
+    = some 0x8000000000000000 := by decide                                                -- i64::MIN
+example : parseI64 [0x30, 0x78, 0x31] = none := by decide                                 -- "0x1"
+example : classify [0x61, 0x24, 0x62] = .reg [0x62] := by decide                          -- "a$b" is register b
+
 /-! ### every failure cause named by the property -/
 
 /-- stack underflow: an operator with fewer than two operands below it fails -/
@@ -317,6 +349,39 @@ theorem deltas_above_ignored (r : CfiRec) (a : Nat) (extra : List (Nat × Bytes)
     rw [(hp.map (·.2)).mem_iff]
 
 example : linesAt ⟨0x10, 0x10, [1], [(0x12, [3]), (0x11, [2]), (0x13, [4])]⟩ 0x12 = [[1], [2], [3]] := by decide
+
+/-- **C06.4 (`rules_override`, overriding part)** "with later ones overriding": parsing a further
+    line into the rules collected so far succeeds iff the line parses on its own, and the result is
+    the line's own rules laid over the earlier ones — for every register the line defines, its rule
+    replaces the earlier one; every other register keeps its rule. -/
+theorem later_overrides (line : Bytes) (m : RuleMap) :
+    match parseCfiExprs line m, parseCfiExprs line [] with
+    | some m', some own => ∀ k, m'.get k = match own.get k with
+                                           | some e => some e
+                                           | none => m.get k
+    | none, none => True
+    | _, _ => False :=
+  parseLoop_overlay (splitWs line) none [] m
+
+/-- the lines are parsed in order, each into the map left by the previous ones -/
+theorem parseAll_append (ls : List Bytes) (l : Bytes) (m : RuleMap) :
+    parseAll (ls ++ [l]) m = match parseAll ls m with
+                             | some m' => parseCfiExprs l m'
+                             | none => none := by
+  induction ls generalizing m with
+  | nil => simp only [List.nil_append, parseAll]; cases parseCfiExprs l m <;> rfl
+  | cons x xs ih =>
+    simp only [List.cons_append, parseAll]
+    cases parseCfiExprs x m with
+    | none => rfl
+    | some m' => exact ih m'
+
+/-- the documentation's example: the 0x11 delta replaces the CFA rule and adds one for `$rax`,
+    leaving `.ra` alone (register names and expressions abbreviated to single bytes) -/
+example : (parseAll [[0x2E,0x63,0x66,0x61,0x3A,0x20,0x31,0x20,0x2E,0x72,0x61,0x3A,0x20,0x32],
+                     [0x2E,0x63,0x66,0x61,0x3A,0x20,0x33,0x20,0x24,0x61,0x3A,0x20,0x34]] []).map
+            (fun m => (m.get .cfa, m.get .ra, m.get (.other [0x61]))) =
+          some (some [[0x33]], some [[0x32]], some [[0x34]]) := by decide
 
 /-! ## 5. `walk_with_stack_cfi`: CFA first and not from itself, return address mandatory -/
 
